@@ -30,10 +30,10 @@ def spec(W, r, n):
     return out
 
 
-def check_word(mod, run, W, widths):
+def check_word(mod, run, W, widths, suffix=""):
     SB = W // 8; ncase = 0
     for op in ("set", "get"):
-        fname = "wbs%d_%s" % (W, op)
+        fname = "wbs%d%s_%s" % (W, suffix, op)
         if mod.fn(fname) is None: raise AnalysisBroken("witness function %s missing" % fname)
         for n in widths:
             eng = E2(mod, const_args={2: n}, sym_args={1: "start"}, known_bits={3: n} if op == "set" else {})
@@ -100,6 +100,13 @@ def run(tier):
         n = check_word(mod, run, W, widths)
         per["uint%d_t" % W] = {"widths": len(widths), "cases": n}
         run.floor("cases for %d-bit words" % W, n, 100)
+        if W < 64:
+            # the same word type with a value type of the same (narrow) width: masks built from 64-bit constants must still be cut to size
+            modn = Module(build_module("bitstream-%dn" % W, [os.path.join(VERIF, "witness", "bitstream_%dn.c" % W)], "ndebug"))
+            wn = widths if W <= 16 else [w_ for w_ in widths if w_ in (1, 2, 7, 8, 13, 16, 24, 31, 32)]
+            nn = check_word(modn, run, W, wn, suffix="n")
+            per["uint%d_t/narrow-value" % W] = {"widths": len(wn), "cases": nn}
+            run.floor("cases for %d-bit words, narrow value type" % W, nn, 30)
     # sign helper constant (compile witness)
     src = os.path.join(VERIF, "witness", "bitstream_sign.c")
     rc, err = compile_only(src, ["-Werror=shift-count-overflow", "-ferror-limit=0"])
